@@ -96,6 +96,14 @@ def prepare(lay, cfg):
         else:
             with open(lay.plan, "wb") as f:
                 f.write(STALE)
+    if cfg.get("unwritable"):
+        # one of the outputs the result provides cannot be written: it pre-exists as a symbolic link to /dev/full (every write fails ENOSPC)
+        p = lay.plan if cfg["unwritable"] == "plan.toml" else os.path.join(lay.layers, cfg["unwritable"])
+        if os.path.lexists(p):
+            os.unlink(p)
+        # (store.toml is also read at the start of build, and /dev/full reads as an endless stream of zeros: there a link into a
+        # directory that does not exist is used instead - reads as "no store", cannot be created)
+        os.symlink("/dev/full" if cfg["unwritable"] != "store.toml" else "/nonexistent-vp-dir/store.toml", p)
     if isinstance(cfg["beh"], dict) and cfg["beh"].get("result") == "layer_err":
         with open(os.path.join(lay.layers, "blocked"), "w") as f:
             f.write("a file where a layer directory should go")
@@ -114,6 +122,9 @@ def expectation(cfg):
     plat_ok = cfg["platform"] != "env-is-file" and (name == "detect" or cfg["platform"] not in ("plan-missing", "plan-malformed"))
     if cfg["toml"] == "ok-broken-rest" or not env_ok or not plat_ok:
         return {"reach": False, "status": "error", "on_error": 1}
+    if cfg.get("unwritable"):
+        # the buildpack code runs and succeeds, writing its result fails: an error (handler once, neither 0 nor 100)
+        return {"reach": True, "status": "error", "on_error": 1}
     if name == "detect":
         b = cfg["beh"]
         if b in ("pass", "plan"):
@@ -204,6 +215,10 @@ def run_cfg(lay, cfg, idx, seed, sh):
     # ---- files
     changed = {k for k in set(pre) | set(post) if pre.get(k) != post.get(k)}
     allowed = set()
+    if cfg.get("unwritable"):
+        # the error is reported (checked above); which of the other outputs were already written is not specified
+        sh.nontrivial.add(("unwritable", cfg["unwritable"], cell(cfg)[-1]))
+        return
     if cfg["name"] == "detect" and exp["reach"] and cfg["beh"] == "plan":
         allowed.add(b"plan.toml")
         raw = post.get(b"plan.toml")
@@ -321,6 +336,16 @@ def run(tier, seed, work):
         for pre in (False, True):
             cfgs.append({"name": name, "argc": 2 if name == "detect" else 3, "toml": "ok", "envmask": [True] * 5, "platform": "ok", "pre": pre, "raw_path": True,
                          "beh": "plan" if name == "detect" else {"result": "ok", "launch": True, "store": False, "build_sboms": [], "launch_sboms": []}})
+    full = {"result": "ok", "launch": True, "store": True, "build_sboms": ["cdx", "spdx", "syft"], "launch_sboms": ["spdx", "cdx"]}
+    for out in ["plan.toml", "launch.toml", "store.toml", "build.sbom.cdx.json", "build.sbom.syft.json", "launch.sbom.spdx.json", "launch.sbom.cdx.json"]:
+        name = "detect" if out == "plan.toml" else "build"
+        cfgs.append({"name": name, "argc": 2 if name == "detect" else 3, "toml": "ok", "envmask": [True] * 5, "platform": "ok", "pre": False, "unwritable": out,
+                     "beh": "plan" if name == "detect" else dict(full)})
+        if name == "build":
+            # the same with a result that provides only this one output
+            only = {"result": "ok", "launch": out == "launch.toml", "store": out == "store.toml", "build_sboms": [out.split(".")[2]] if out.startswith("build.sbom") else [],
+                    "launch_sboms": [out.split(".")[2]] if out.startswith("launch.sbom") else []}
+            cfgs.append({"name": name, "argc": 3, "toml": "ok", "envmask": [True] * 5, "platform": "ok", "pre": False, "unwritable": out, "beh": only})
     items = list(enumerate(cfgs))
     for d in vp.pmap(shard_run, [(s, seed, work) for s in vp.split(items, vp.NCPU * 2)]):
         res.merge(d)
